@@ -5,7 +5,10 @@ use crate::{
     semantic::{
         function,
         type_registry::TypeRegistry,
-        types::{Function, FunctionBody, ItemState, ItemStateResolved, Type, Visibility},
+        types::{
+            Function, FunctionBody, ItemCategory, ItemDefinitionInner, ItemState,
+            ItemStateResolved, Type, Visibility,
+        },
         SemanticState,
     },
     util,
@@ -433,6 +436,52 @@ pub fn build(
 
             if !inner.defaultable() {
                 anyhow::bail!("field `{name}` of type `{resolvee_path}` is not a defaultable type");
+            }
+        }
+    }
+
+    // Iterate over all of the regions and ensure that the types defined here that they embed
+    // carry the attributes that our own copyable/cloneable attributes require of them.
+    // (Pointers are always copyable; predefined and extern types cannot be checked.)
+    if copyable || cloneable {
+        for region in &regions {
+            fn get_embedded_type_path(type_ref: &Type) -> Option<&ItemPath> {
+                match type_ref {
+                    Type::Raw(tp) => Some(tp),
+                    Type::Array(t, _) => get_embedded_type_path(t),
+                    _ => None,
+                }
+            }
+            let Some(item) = get_embedded_type_path(&region.type_ref)
+                .and_then(|path| semantic.type_registry.get(path))
+            else {
+                continue;
+            };
+            if item.category() != ItemCategory::Defined {
+                continue;
+            }
+            let Some(resolved) = item.resolved() else {
+                continue;
+            };
+            let (field_copyable, field_cloneable) = match &resolved.inner {
+                ItemDefinitionInner::Type(td) => (td.copyable, td.cloneable),
+                ItemDefinitionInner::Enum(ed) => (ed.copyable, ed.cloneable),
+            };
+            let name = region.name.as_deref().unwrap_or("unnamed");
+            if copyable && !field_copyable {
+                anyhow::bail!(
+                    "field `{name}` of type `{resolvee_path}` is not a copyable type"
+                );
+            }
+            if cloneable && !field_cloneable {
+                anyhow::bail!(
+                    "field `{name}` of type `{resolvee_path}` is not a cloneable type"
+                );
+            }
+            if cloneable && packed && !field_copyable {
+                anyhow::bail!(
+                    "field `{name}` of the packed type `{resolvee_path}` is not a copyable type; a packed type can only be cloned if its fields are copyable"
+                );
             }
         }
     }
